@@ -191,25 +191,26 @@ TABLE = {
 
 # clauses added after the second round of independently seeded changes (DESIGN.md 8.6); appended to the decided text
 ROUND2 = {
-    'C01': 'Inv-C: whenever a todo set grows the node is on the queue when the function returns, and every queue rebuild keeps nodes with pending targets',
+    'C01': 'Inv-C: whenever a todo set grows the node is on the queue when the function returns, and every queue rebuild keeps nodes with pending targets; schedule.find selects by equality of the tag',
     'C03': 'jobs leave the dispatch batch only per job or in farm.clear; every step of the cloud hiring exchange continues, hires or hands the job back; '
     'doing shrinks only where the reply is applied (ONE known finding: purge strips doing of executing dependents) and queue rebuilds keep queued entries',
     'C04': 'the idle observers re-read the live binding on every poll',
     'C05': "the worker's try around Context.run catches BaseException",
     'C06': "the server's set branch stores the blob name unconditionally between move and the reply",
     'C08': 'util.append stores into the persisted table before it extends the in-memory index',
-    'C09': 'no module on the naming / graph path captures a run-time-assigned dawgie.context setting at import time',
+    'C09': 'no module on the naming / graph path captures a run-time-assigned dawgie.context setting at import time; no one-shot iterator held in a local of the graph builder is consumed inside a loop that runs more than once per binding',
     'C10': 'every db.archive implementation delivers the continuation exactly once; while a background step is outstanding every trigger with an edge '
-    'from that state is refused as the first effect of its before-callback or, if accepted, the machine settles at rest after all steps (exception semantics modelled)',
-    'C12': 'pollers re-read the live state per iteration; FSM.reset is called only by the constructor and the reload edge; an unknown priority text reaches the documented fallback',
+    'from that state is refused as the first effect of its before-callback or, if accepted, the machine settles at rest after all steps (exception semantics modelled); no FSM method writes the transitioning marker after it handed its step to the thread pool',
+    'C12': 'pollers re-read the live state per iteration; FSM.reset is called only by the constructor and the reload edge; an unknown priority text reaches the documented fallback; the callback that may fire the reload is a success-only callback of the poller deferred',
     'C13': 'nothing that can raise is called between taking the lock and answering the client (callees followed two levels)',
+    'C11': 'outside dawgie.context the live revision is assigned only by code of the reload step (reached from FSM.reload, not from FSM.load)',
     'C14': 'no receive loop consumes a local copy of a buffer that a phase reached from the loop also writes',
     'C15': 'every work-set assignment stores a container constructed for that node',
-    'C16': 'each rule_NN makes the observations recorded for it (table); main puts the root of --ae-dir at the front of sys.path before scanning',
-    'C17': 'the SQL range terms are half open with one placeholder per pushed bound; front-end callers of find hand the page on unreordered',
-    'C18': 'the history read path keeps no state between calls; complete reads no reply-dependent timing key before the journal entry is written',
+    'C16': 'each rule_NN makes the observations recorded for it (table); main puts the root of --ae-dir at the front of sys.path before scanning; no handler in dawgie.pl.scan swallows a failing import of a task module',
+    'C17': 'the SQL range terms are half open with one placeholder per pushed bound; front-end callers of find hand the page on unreordered; the search path keeps no state between calls (no memoisation)',
+    'C18': 'the history read path keeps no state between calls; complete reads no reply-dependent timing key before the journal entry is written; the history end points relabel the zone of a bound only where it is known to be naive',
     'C19': 'the certificate handed to sanctioned keeps the None marker of an anonymous caller',
-    'C20': "the monthly (year, month) candidate is this or next month with an exact year carry for all 12 months; a due event's node is queued on every path; every timer is armed with a wrapper constructed for it",
+    'C20': "the monthly (year, month) candidate is this or next month with an exact year carry for all 12 months; a due event's node is queued on every path; every timer is armed with a wrapper constructed for it; the boot token tested and stored identifies the event (not just the algorithm name)",
 }
 
 # properties whose module is finished, reviewed and clean on the tree
